@@ -279,7 +279,9 @@ func (c15) Rule() string {
 		"and source kind (WriterTo, WriterTo+ReadCloser, Reader, ReadCloser, BinaryMarshaler, error, []byte, string, pointers, named types, struct/slices via swag JSON, " +
 		"TextMarshaler, Stringer, unsupported, typed-nil pointers, nil) x script shapes (one chunk, 1-byte chunks, zero-length reads, data+EOF, error at every offset, " +
 		"short/failing writers with and without error) x contents (empty, text, binary, invalid UTF-8, a few KB) x ClosesStream on/off x closable or not x pre-populated or fresh; " +
-		"JSON/XML/YAML producer->consumer round trips (differential). Non-trivial: a consume/produce case with a non-nil stream and a non-nil " +
+		"JSON/XML/YAML producer->consumer round trips (differential), incl. one number literal (integers around/beyond 2^53 and the int64/uint64 limits, 20-60 digits, " +
+		"long decimals, exponents beyond float64) at every number slot of every destination shape (interface slots reached through structs, slices, arrays, maps, pointers, " +
+		"named and embedded types; typed int64/uint64/float64/json.Number/big.Int slots, XML attributes) compared leaf by leaf as exact decimal text. Non-trivial: a consume/produce case with a non-nil stream and a non-nil " +
 		"destination/source whose script or content is not empty, or a round trip."
 }
 
@@ -1088,7 +1090,8 @@ func c15TypedVals(lit string) c15TVals {
 		f = math.MaxFloat64
 	case math.IsInf(f, -1):
 		f = -math.MaxFloat64
-	case math.IsNaN(f):
+	case math.IsNaN(f), f == 0:
+		// no negative zero: yaml.v3 writes it as -0, which it reads back as the integer 0 (the library, not the codec)
 		f = 0
 	}
 	t.f = f
@@ -1169,7 +1172,7 @@ var c15Slots = []c15SlotDef{
 		i, u, f := t.i, t.u, t.f
 		sub := c15TSubOf(t)
 		return c15Typed{I: t.i, U: t.u, PI: &i, PU: &u, LI: []int64{t.i, -t.i}, LU: []uint64{t.u, ^t.u}, F: t.f, PF: &f, S: t.s, JN: json.Number(t.s),
-			B: new(big.Int).Set(t.b), Sub: sub, PSub: &sub, LSub: []c15TSub{sub, {I: math.MinInt64, U: math.MaxUint64, F: -t.f}}}
+			B: new(big.Int).Set(t.b), Sub: sub, PSub: &sub, LSub: []c15TSub{sub, {I: math.MinInt64, U: math.MaxUint64, F: 0 - t.f}}}
 	}, func() any { return new(c15Typed) }},
 	{"typed_maps", "jy", false, func(_ any, t c15TVals) any {
 		return c15TMaps{MI: map[string]int64{"a": t.i, "b": math.MaxInt64}, MU: map[string]uint64{"a": t.u, "b": math.MaxUint64},
